@@ -35,7 +35,22 @@ def is_cheap(f) -> bool:
     k = f.get_id()
     if k not in _cheap_cache:
         t = f.sexpr()
-        _cheap_cache[k] = not any(w in t for w in ("str.", "String", "re.", "seq.", "forall", "exists", "Array"))
+        ok = not any(w in t for w in ("str.", "String", "re.", "seq.", "forall", "exists", "Array"))
+        if ok:
+            # string-sorted terms can hide behind uninterpreted functions (their names print without sorts)
+            seen, stack, n = set(), [f], 0
+            while stack and ok and n < 400:
+                x = stack.pop()
+                if x.get_id() in seen:
+                    continue
+                seen.add(x.get_id())
+                n += 1
+                if x.sort().kind() in (z3.Z3_SEQ_SORT, z3.Z3_RE_SORT, z3.Z3_ARRAY_SORT):
+                    ok = False
+                stack.extend(x.children())
+            if stack:
+                ok = False
+        _cheap_cache[k] = ok
     return _cheap_cache[k]
 
 
@@ -1741,6 +1756,10 @@ class Engine:
 
     def binop(self, ctx, op, a, b, node=None):
         a, b = ctx.force(a), ctx.force(b)
+        if isinstance(a, VObj):
+            hook = self.models.get(("binop", type(op).__name__, a.cls))
+            if hook:
+                return hook(ctx, a, b)
         a, b = self.num(a), self.num(b)
         if isinstance(a, (VInt, VReal)) and isinstance(b, (VInt, VReal)):
             real = isinstance(a, VReal) or isinstance(b, VReal)
@@ -1898,6 +1917,8 @@ class Engine:
         hook = self.models.get(("contains", getattr(container, "cls", None) or getattr(container, "sort", None) or container.kind))
         if hook:
             return hook(ctx, container, item)
+        if isinstance(container, (VNoneT, VInt, VBool, VReal)):
+            raise PyRaise(VExc("TypeError", VStr("argument of this type is not iterable"), origin=f"in@{getattr(node, 'lineno', '?')}"))
         raise Unsupported(f"`in` on {container!r} line {getattr(node, 'lineno', '?')}")
 
     def e_Subscript(self, ctx, fr, e):
